@@ -251,6 +251,36 @@ M('C03-twin-mask-negative', 'C03', BASIC,
   "        if value < 0:\n            raise ValueError(\"Cannot encode a negative number as a VarInt\")\n",
   "        value &= 0xFFFFFFFFFFFFFFFF\n", expect='silent')
 
+# wave r5: the bound as the loop test (while ... else: raise)
+_VREAD_OLD = ("        while True:\n            byte = file_object.read(1)\n            if len(byte) < 1:\n"
+              "                raise EOFError(\"Unexpected end of message.\")\n\n            byte = ord(byte)\n"
+              "            number |= (byte & 0x7F) << 7 * bytes_encountered\n            if not byte & 0x80:\n"
+              "                break\n\n            bytes_encountered += 1\n"
+              "            if bytes_encountered > cls.max_bytes:\n"
+              "                raise ValueError(\"Tried to read too long of a VarInt\")\n        return number\n")
+
+
+def _vread(test, tail):
+    return ("        while %s:\n            byte = file_object.read(1)\n            if len(byte) < 1:\n"
+            "                raise EOFError(\"Unexpected end of message.\")\n\n            byte = ord(byte)\n"
+            "            number |= (byte & 0x7F) << 7 * bytes_encountered\n            if not byte & 0x80:\n"
+            "                break\n\n            bytes_encountered += 1\n%s        return number\n" % (test, tail))
+
+
+_VELSE = "        else:\n            raise ValueError(\"Tried to read too long of a VarInt\")\n"
+M('C03-twin-bound-as-loop-test', 'C03', BASIC, _VREAD_OLD,
+  _vread('bytes_encountered <= cls.max_bytes', _VELSE), expect='silent')
+M('C03-loop-test-no-else', 'C03', BASIC, _VREAD_OLD,
+  _vread('bytes_encountered <= cls.max_bytes', ''), rule='R03.1')
+M('C03-loop-test-one-more', 'C03', BASIC, _VREAD_OLD,
+  _vread('bytes_encountered <= cls.max_bytes + 1', _VELSE), rule='R03.1')
+M('C03-twin-varlong-twice-varint', 'C03', BASIC,
+  "class VarLong(VarInt):\n    max_bytes = 10", "class VarLong(VarInt):\n    max_bytes = 2 * VarInt.max_bytes",
+  expect='silent')
+M('C03-varlong-thrice-varint', 'C03', BASIC,
+  "class VarLong(VarInt):\n    max_bytes = 10", "class VarLong(VarInt):\n    max_bytes = 3 * VarInt.max_bytes",
+  rule='R03.1')
+
 # ---------------------------------------------------------------- C04
 M('C04-send-swap-shifts', 'C04', BASIC,
   "value = ((x & 0x3FFFFFF) << 38 | (z & 0x3FFFFFF) << 12 | (y & 0xFFF)",
